@@ -247,6 +247,9 @@ func (c *metaCheck) Run(env *Env, sc *Scenario) (*Violation, error) {
 		for _, r := range plan.Added {
 			t := full.Blocks[r.B].Tx[r.I]
 			k := "dup"
+			if t.Mut == nil && t.DupOf == nil {
+				k = "forged-foreign-input"
+			}
 			if t.Mut != nil {
 				k = fmt.Sprintf("mut:%s:%d:%d", t.Mut.Kind, t.Mut.Ext, t.Mut.Bit)
 			} else if t.DupOf != nil {
@@ -319,7 +322,7 @@ func kindOf(t world.TxSpec) string {
 	if t.DupOf != nil {
 		return "duplicate"
 	}
-	return "other"
+	return "forged_foreign_input"
 }
 
 func cloneSpec(s *world.Spec) *world.Spec {
@@ -399,6 +402,23 @@ func init() {
 						all = all[:flips]
 					}
 					muts = append(muts, all...)
+				}
+				// forged batches: the first transaction is the attacker's own (and is the
+				// only one signed), a later one names the victim's address as its input
+				victim := src.From
+				if src.RCDE {
+					victim = world.AddrEthBase - src.From
+				}
+				if len(src.Parts) > 0 {
+					for _, tb := range []int{tr.B, minInt(tr.B+1, len(spec.Blocks)-1)} {
+						vr := victim
+						forged := world.TxSpec{From: 9, Minute: 10, Nonce: 7000000 + len(plan.Added), Parts: []world.TxPart{
+							{Asset: src.Parts[0].Asset, Amt: 0, Outs: []world.Out{{To: 9, Amt: 0}}},
+							{Asset: src.Parts[0].Asset, Amt: 1 + src.Parts[0].Amt/3, InAddr: &vr, Outs: []world.Out{{To: 9, Amt: 1 + src.Parts[0].Amt/3}}},
+						}}
+						spec.Blocks[tb].Tx = append(spec.Blocks[tb].Tx, forged)
+						plan.Added = append(plan.Added, world.Ref{B: tb, I: len(spec.Blocks[tb].Tx) - 1})
+					}
 				}
 				// spread the copies over the same block, the next and a later one
 				for i, m := range muts {
